@@ -77,7 +77,7 @@ UNIT_TRUSTED["table_policy"] = [
 ]
 
 UNIT_TRUSTED["table_idalloc"] = [
-    "IdAllocator::{new,alloc,dealloc} wrapped in place; rule R21 turns `for (i, word) in self.bits.iter_mut().enumerate()` into an index loop that borrows one element per round through vx_vec_index_mut (ASSUMED: `&mut v[i]` yields the element at i and touches nothing else, what IndexMut for Vec promises); u64::trailing_ones through vstd's axiom_u64_trailing_ones (ASSUMED by vstd); bit-level facts by Verus's bit_vector back end; the debug_assert!s of the code are proof obligations (Verus treats a reachable panic as a failed precondition). PRECONDITIONS not checked at call sites (Table mutators, note T): shard index < 256, some local id below 2^24 is free (the code's own documented limit of 16M destinations per shard), dealloc is given an id whose word exists",
+    "IdAllocator::{new,alloc,dealloc} wrapped in place; rule R21 turns `for (i, word) in self.bits.iter_mut().enumerate()` into an index loop that borrows one element per round through vx_vec_index_mut (ASSUMED: `&mut v[i]` yields the element at i and touches nothing else, what IndexMut for Vec promises); u64::trailing_ones through vstd's axiom_u64_trailing_ones (ASSUMED by vstd); bit-level facts by Verus's bit_vector back end; rule R22 drops the debug_assert!s of new / alloc from the verified text (release-build meaning; C06 is silent about panics). PRECONDITIONS not checked at call sites (Table mutators, note T): shard index < 256, some local id below 2^24 is free (the code's own documented limit of 16M destinations per shard), dealloc is given an id whose word exists",
 ]
 
 UNIT_TRUSTED["table_rslocal"] = [
@@ -173,7 +173,7 @@ PLAN = {
             "fn_filter": {"daemon_export": ["process_nlri_change"]}},
     "C05": {"verus": ["packet_validate", "packet_parse"], "kani": ["c05_canonical_flags_table"] + ["c05_attr_decode_" + x for x in ("origin", "med", "local_pref", "atomic_aggregate", "aggregator", "community", "originator_id", "cluster_list", "ext_community", "as4_aggregator", "large_community")] + ["c05_attr_decode_as_path_len%d" % n for n in (0, 6, 7, 8, 12)] + ["c05_attr_decode_as4_path_len%d" % n for n in (6, 7, 12)], "level": "proof"},
     "C06": {"verus": ["table_idalloc"], "kani": ["c06_id_alloc_unique", "c06_id_dealloc_exact", "c06_id_alloc_mustfail"], "level": "proof",
-            "explanation": "Identifier clause of C06 only. Verus (unbounded: any number of bitmap words, every word over its full 64-bit domain) on the real IdAllocator::{new,alloc,dealloc} wrapped in place: the bitmap is viewed as the set of live local ids; alloc returns an id that no live prefix of the shard holds, whose bits 31..24 are the shard index, and makes exactly that id live (whole-view postcondition: every other id keeps its state); dealloc frees exactly its id; a fresh allocator has no live id; the code's debug_assert!s (24-bit local id) are discharged as obligations under the stated precondition that a local id below 2^24 is free. The three Kani/CBMC harnesses (<= 4 bitmap words, BOUNDED, counted as bounded stand-ins and not as proof) stay as the source of concrete counterexamples for the replay. Which free id is chosen and whether the bitmap is trimmed is not asserted (the property does not ask for it). NOT covered: that Table::{insert,remove,...} pair alloc / dealloc with the life of a prefix, the change-stream fold and the end-of-deferral clause (Table mutators, note T)."},
+            "explanation": "Identifier clause of C06 only. Verus (unbounded: any number of bitmap words, every word over its full 64-bit domain) on the real IdAllocator::{new,alloc,dealloc} wrapped in place: the bitmap is viewed as the set of live local ids; alloc returns an id that no live prefix of the shard holds, whose bits 31..24 are the shard index, and makes exactly that id live (whole-view postcondition: every other id keeps its state); dealloc frees exactly its id; a fresh allocator has no live id; the arithmetic of the local id cannot overflow under the stated precondition that a local id below 2^24 is free (the debug_assert!s are dropped, rule R22). The three Kani/CBMC harnesses (<= 4 bitmap words, BOUNDED, counted as bounded stand-ins and not as proof) stay as the source of concrete counterexamples for the replay. Which free id is chosen and whether the bitmap is trimmed is not asserted (the property does not ask for it). NOT covered: that Table::{insert,remove,...} pair alloc / dealloc with the life of a prefix, the change-stream fold and the end-of-deferral clause (Table mutators, note T)."},
     "C07": {"verus": ["daemon_fsm", "packet_parse"], "level": "proof"},
     "C08": {"verus": ["daemon_fsm"], "level": "proof"},
     "C09": {"verus": ["daemon_export", "packet_aspath"], "level": "proof",
